@@ -658,7 +658,12 @@ bool ObjectFile::writeAttributes(File &objectFile)
 		}
 	}
 
-	objectFile.unlock();
+	if (!objectFile.unlock())
+	{
+		DEBUG_MSG("Failed to flush object %s", path.c_str());
+
+		return false;
+	}
 
 	return true;
 }
